@@ -353,8 +353,12 @@ StatAlloc(const int_t n, const int_t nprocs, const int_t panel_size,
 
     w = SUPERLU_MAX( panel_size, relax ) + 1;
     Gstat->panel_histo = intCalloc(w);
-    Gstat->utime = (double *) SUPERLU_MALLOC(NPHASES * sizeof(double));
-    Gstat->ops   = (flops_t *) SUPERLU_MALLOC(NPHASES * sizeof(flops_t));
+    if ( !(Gstat->utime =
+	   (double *) SUPERLU_MALLOC(NPHASES * sizeof(double))) )
+	SUPERLU_ABORT( "SUPERLU_MALLOC failed for utime[]" );
+    if ( !(Gstat->ops =
+	   (flops_t *) SUPERLU_MALLOC(NPHASES * sizeof(flops_t))) )
+	SUPERLU_ABORT( "SUPERLU_MALLOC failed for ops[]" );
     
     if ( !(Gstat->procstat =
 	   (procstat_t *) SUPERLU_MALLOC(nprocs*sizeof(procstat_t))) )
